@@ -1,4 +1,4 @@
 SPECIFICATION MCSpec
-CONSTANTS MaxOpts = 1  Wide = TRUE  DoFiles = FALSE  Cov = FALSE  Big = FALSE  Strict = "none"
+CONSTANTS MaxOpts = 0  Wide = TRUE  DoFiles = TRUE  Cov = TRUE  Big = FALSE  Strict = "none"
 INVARIANTS TypeOK ScanContract EarlyExitContract NoPatternContract StatusContract ReadContract NameContract LabelContract StrictInv
 CHECK_DEADLOCK FALSE
